@@ -48,7 +48,7 @@ Definition spec (c : cname) (o : op) : option soutcome :=
   | OpCopy | OpDeepcopy => Some (SSucceeds SEquivalentCopy)
   | OpPickle => match c with Named _ => Some (SSucceeds SEquivalentCopy) | Logging _ => None end
   | OpRevContains _ => None
-  | OpArith Mod Rev (OB KStr) => None
+  | OpArith Mod Rev (OB KStr) | OpArith Mod Rev (OB KBytes) => None
   | OpArith Mod Rev (OB KMarkup) | OpArith Mul Rev (OB KMarkup) => None
   | _ =>
       match flavour c with
@@ -89,7 +89,7 @@ Definition agrees (m : outcome) (s : soutcome) : bool :=
 (* ---- the finite domain *)
 Definition all_classes : list cname :=
   [Named BU; Named BC; Named BD; Named BS; Logging BU; Logging BC; Logging BD; Logging BS].
-Definition all_others : list other := [OB KInt; OB KFloat; OB KStr; OB KNone; OB KList; OB KMarkup; OSame; OPlain].
+Definition all_others : list other := [OB KInt; OB KFloat; OB KStr; OB KNone; OB KList; OB KMarkup; OB KBool; OB KTuple; OB KDict; OB KBytes; OSame; OPlain].
 Definition all_ariths : list arith := [Add; Sub; Mul; Div; FloorDiv; Mod; Pow].
 Definition all_cmps : list cmp := [CEq; CNe; CLt; CLe; CGt; CGe].
 Definition all_ops : list op :=
